@@ -22,6 +22,17 @@ CHECKS = {
    note="Trusted: the mirror conversion of savefile::Schema through its public fields; recursion frames of recursive types are located by walking type and schema in parallel."),
 }
 
+CHECKS.update({
+ "C03": dict(cat="exploration", design="DESIGN.md §3 C03",
+   technique="property-based testing over generated evolution histories (stateful generation of edit sequences) with a reference reader as oracle",
+   text="Generated histories (documented edit steps at any position, nested, packed neighbours) x every pair saved<=loading x generated values: the value loaded by the later program must equal what the documented rules give (reference decoder of the later program applied to the reference encoding of the earlier one), for plain, schema-less and compressed files.",
+   note="Trusted: reference encoder/decoder and the conversion semantics typegen emits for savefile_versions_as. Histories are limited to the documented edit steps."),
+ "C18": dict(cat="exploration", design="DESIGN.md §3 C18",
+   technique="property-based testing over generated evolution histories: differential against the reference encoder at every older version, plus the two-path packed relations",
+   text="For every generated history, every pair (current n, written k<=n) and generated values: bare_serialize at version k must equal the documented encoding at k, the version-k program must read it to the expected value, and the packed/bulk relations must hold at every version (fast path never taken where wire and memory differ).",
+   note="Restricted to the edits the property names (field addition, AbiRemoved with/without constructor, appended variants, retired live fields); versions covered by savefile_versions_as or Removed<T> are counted as excluded."),
+})
+
 NOT_YET = {
 }
 
